@@ -40,7 +40,11 @@ impl Uci {
     fn uci_loop(&mut self, input: &mut impl BufRead) {
         loop {
             let mut line = String::new();
-            input.read_line(&mut line).unwrap();
+            // End of input (or an unreadable stream) ends the session like quit does
+            match input.read_line(&mut line) {
+                Ok(0) | Err(_) => break,
+                Ok(_) => (),
+            }
             let trimmed = line.trim();
             let fields: Vec<_> = trimmed.split_whitespace().collect();
 
